@@ -252,3 +252,11 @@ Definition tags_ok (allowed : list (string * list string)) (f : fn_decl) : bool 
               match unknowns (fn_body f) with [] => true | _ => false end
   | None => false
   end.
+
+(* the statements of a body in order, sequences flattened (to state "this statement comes first") *)
+Fixpoint flatten (s : stmt) : list stmt :=
+  match s with
+  | SSkip => []
+  | SSeq a b => flatten a ++ flatten b
+  | _ => [s]
+  end.
